@@ -248,6 +248,7 @@ fn roundtrip_scen(case: &Case, data: &[u8], ctx: &mut Ctx) -> Option<Violation> 
     };
     ctx.absorb("sink", &enc.stats);
     ctx.bytes("stream", &enc.bytes);
+    structure_reach(ctx, &case.fmt, &enc.bytes);
     ctx.metric("bytes_in", data.len() as u64);
     ctx.nontrivial = !data.is_empty();
     if let Some(v) = lzma2_structure(case, &enc.bytes) {
@@ -480,6 +481,7 @@ fn exact(case: &Case, data: &[u8], ctx: &mut Ctx) -> Option<Violation> {
     let mut all = stream.clone();
     all.extend_from_slice(&trailer);
     ctx.bytes("stream", &all);
+    structure_reach(ctx, &case.fmt, &stream);
     let src = SimSource::new(all, &case.src_policy, &[]);
     let stats = src.stats();
     let sizes = case.read_sizes();
@@ -629,6 +631,7 @@ fn sizes(case: &Case, data: &[u8], ctx: &mut Ctx) -> Option<Violation> {
         }
     };
     ctx.bytes("stream", &enc.bytes);
+    structure_reach(ctx, &case.fmt, &enc.bytes);
     let limit = case.opt.unit.unwrap_or(u64::MAX).max(if case.fmt == "lzip" { case.opt.dict.clamp(4096, 512 << 20) } else { case.opt.dict } as u64);
     ctx.nontrivial = data.len() as u64 > limit;
     if case.fmt == "xz" {
